@@ -32,6 +32,13 @@ class C07(ChanSpec):
         if rc != 0:
             lines.append("C07 crash harness-exit-%d" % rc)
         lines += ChanSpec.harness(self, seed, count, tier)
+        # served channels with panicking active / failing read handlers (lifecycle acceptor)
+        n, scheds, ndfs, bound, cap = self.budgets[tier]
+        rc, so, se = core.run([os.path.join(core.BIN, "nvhc"), "-prop", "C05L", "-seed", str(seed + 5), "-count", str(n * count), "-scheds", str(max(2, scheds // 2))],
+                              timeout=self.harness_timeout[tier])
+        lines += [l for l in so.split("\n") if l]
+        if rc != 0:
+            lines.append("C05L crash harness-exit-%d" % rc)
         return lines
 
     def nontrivial(self, line, answer):
